@@ -101,6 +101,25 @@ def generate():
     w('Definition http_default_status : Z := %s.' % cZ(openapi.HTTP_DEFAULT_STATUS))
     _expect(isinstance(openapi.JSONRPC_MEDIATYPE, str), 'JSONRPC_MEDIATYPE')
     w('Definition jsonrpc_mediatype : string := %s.' % cstr(openapi.JSONRPC_MEDIATYPE))
+    # truthiness facts the asynchronous batch filter (`if resp`) relies on, read from the live classes
+    from pjrpc.common import UNSET, Response
+    truthy = not any(hasattr(Response, a) for a in ('__bool__', '__len__'))
+    w('Definition response_always_truthy : bool := %s.' % cbool(truthy))
+    w('Definition unset_is_falsy : bool := %s.' % cbool(not bool(UNSET)))
+    # the twin code paths: source text of the synchronous half equals the asynchronous half once `async ` / `await ` and
+    # the sleep primitive are erased (a syntactic fact about the current tree; False does not break a proof by itself,
+    # it only removes one supporting fact from the evidence)
+    import re
+    from pjrpc.client import retry as _retry
+
+    def norm(f):
+        src = inspect.getsource(f)
+        src = re.sub(r'\basync\s+|\bawait\s+', '', src)
+        src = src.replace('asyncio.sleep', 'SLEEP').replace('time.sleep', 'SLEEP').replace('retry_async', 'retry')
+        src = re.sub(r'"""[\s\S]*?"""', '', src)
+        src = src.replace('Awaitable[AbstractResponse]', 'AbstractResponse').replace('Asynchronous', 'Synchronous')
+        return re.sub(r'\s+', ' ', src)
+    w('Definition retry_twins_textually_equal : bool := %s.' % cbool(norm(_retry.retry) == norm(_retry.retry_async)))
     return '\n'.join(out) + '\n'
 
 
